@@ -51,25 +51,25 @@ Example sod_residual_small :
 Proof. vm_compute. reflexivity. Qed.
 
 (* sampling: left of everything the left state, right of everything the right state, in between the star pressure *)
-Example sod_samples :
-  let s x := fst (solve float FS c2 100 100 1 0 1 0.125 0 0.1 x) in
+Example sod_samples : forall cl : bool,
+  let s x := fst (solve float FS c2 cl 100 100 1 0 1 0.125 0 0.1 x) in
   s (-5) = ((-1)%Z, 1, 0, 1) /\ s 5 = (1%Z, 0.125, 0, 0.1) /\
   snd (s 0) = st_P float sod /\ snd (s (st_u float sod + 0.01)) = st_P float sod.
-Proof. vm_compute. repeat split; reflexivity. Qed.
+Proof. intros [|]; vm_compute; repeat split; reflexivity. Qed.
 
 (* vacuum generation: receding states *)
-Example vacuum_generated :
-  fst (solve float FS c2 100 100 1 (-10) 1 1 10 1 0) = (0%Z, 0, 0, 0).
-Proof. vm_compute. reflexivity. Qed.
+Example vacuum_generated : forall cl : bool,
+  fst (solve float FS c2 cl 100 100 1 (-10) 1 1 10 1 0) = (0%Z, 0, 0, 0).
+Proof. intros [|]; vm_compute; reflexivity. Qed.
 
 (* the checks above as one boolean (stated in Props/Properties_C11.v without float notations) *)
-Definition sod_checks : bool :=
+Definition sod_checks (cl : bool) : bool :=
   ((st_code float sod =? 2)%Z || (st_code float sod =? 3)%Z) &&
   (0.1 <? st_P float sod) && (st_P float sod <? 1) && (0 <? st_u float sod) &&
-  (let s x := fst (solve float FS c2 100 100 1 0 1 0.125 0 0.1 x) in
+  (let s x := fst (solve float FS c2 cl 100 100 1 0 1 0.125 0 0.1 x) in
    match s (-5), s 5, s 0 with
    | (fl, r1, u1, p1), (fr, r2, u2, p2), (_, _, _, p0) =>
      (fl =? -1)%Z && (r1 =? 1) && (p1 =? 1) && (fr =? 1)%Z && (r2 =? 0.125) && (p2 =? 0.1) && (p0 =? st_P float sod)
    end).
-Example sod_checks_true : sod_checks = true.
-Proof. vm_compute. reflexivity. Qed.
+Example sod_checks_true : sod_checks true = true /\ sod_checks false = true.
+Proof. split; vm_compute; reflexivity. Qed.
